@@ -74,7 +74,7 @@ CLAIMS["C11"] = ("proof",
     "scrambled mode subsets of 4-11 mode registers compiled with gaussian_unitary / passive and compared exactly with the "
     "documented action of the emitted GaussianTransform / Dgate / PassiveChannel; gaussian_merge on hybrid circuits compared on "
     "the Fock simulator. F13 (hash-order layout), F51, F52 (gaussian_merge reordering) found and repaired; F14 (dagger ignored) "
-    "and F34 (GaussianTransform of such results not decomposable) are open findings.",
+    "is an open finding.",
     _TB + "thewalrus.symplectic helpers are executable models written from its documentation (conformance-tested natively); "
     "ops.GaussianTransform.__init__ is a contract stub. gaussian_merge (DAG surgery over networkx) is covered by the bounded "
     "stand-in only.",
@@ -85,7 +85,7 @@ CLAIMS["C17"] = ("other",
     "and the zero branches of nullMZ/nullMZi make the targeted element exactly zero with an adjacent in-range mode pair; "
     "non-square input rejected. Whole routines are a BOUNDED stand-in (structured families, sizes 2..4 quick / 2..7 thorough): "
     "every mesh through Interferometer.decompose folded with independently defined gate unitaries, driver structure, takagi, "
-    "williamson, bloch_messiah, graph_embed. F26 found and repaired; F34 (bloch_messiah) and F39 (sun_compact) are open findings.",
+    "williamson, bloch_messiah, graph_embed. F26, F34 (bloch_messiah) found and repaired; F39 (sun_compact) is an open finding.",
     _TB + "LAPACK-based routines and the general branch of nullMZ/nullMZi are bounded only; np.round(x,14) treated as x.",
     "deductive VCs (NRA with transcendental abstraction) for helper lemmas + bounded numeric stand-in for whole routines", "DESIGN.md 5/C17")
 CLAIMS["C03"] = ("proof",
